@@ -135,10 +135,10 @@ def tlc_ok(r, what):
 VIOL_RE = re.compile(r'<<\s*"VIOL",\s*(-?\d+),\s*(\d+),\s*\{([^}]*)\}\s*>>')
 
 
-def tlc_trace(spec_files, module, trace_path, work, timeout=1800, trace_name="trace.ndjson", extra_files=None):
+def tlc_trace(spec_files, module, trace_path, work, timeout=1800, trace_name="trace.ndjson", extra_files=None, extra_constants=""):
     """Monitor-style trace validation: the trace spec consumes the whole file and prints
     <<"VIOL", trace id, line, {names}>> tuples.  Returns (violations, result)."""
-    cfg = 'SPECIFICATION Spec\nCONSTANT TraceFile = "%s"\nPOSTCONDITION TraceAccepted\nCHECK_DEADLOCK FALSE\n' % trace_name
+    cfg = 'SPECIFICATION Spec\nCONSTANT TraceFile = "%s"\n%sPOSTCONDITION TraceAccepted\nCHECK_DEADLOCK FALSE\n' % (trace_name, extra_constants)
     d = tempfile.mkdtemp(prefix=module + "-tv-", dir=work)
     files = list(spec_files) + list(extra_files or [])
     for f in files:
